@@ -1024,8 +1024,12 @@ func regexConstructorInvariant(p *Prog) string {
 		if ifi, ok := b.Instrs[len(b.Instrs)-1].(*ssa.If); ok {
 			inner, _ := unNot(ifi.Cond)
 			if bo, ok := inner.(*ssa.BinOp); ok && (bo.Op == token.NEQ || bo.Op == token.EQL) {
-				if vCall("(*regexp.Regexp).NumSubexp")(bo.X) || vCall("(*regexp.Regexp).NumSubexp")(bo.Y) {
-					hasCheck = true
+				// NumSubexp() compared with the group count, in any arrangement of the ±1
+				d := linOf(bo.X).plus(linOf(bo.Y), -1)
+				for v := range d.t {
+					if vCall("(*regexp.Regexp).NumSubexp")(v) {
+						hasCheck = true
+					}
 				}
 			}
 		}
